@@ -57,6 +57,21 @@ var (
 	}
 )
 
+// c16Name: mostly a listed name, sometimes 1-4 random pieces (separators of both key formats,
+// digits that look like partitions, the literal path words of the etcd layout, non-ASCII).
+var c16Pieces = []string{":", "/", "a", "b", "c", "0", "1", "offsets", "metadata", "ü", "日", " ", "-", ".", "%2F", "\\"}
+
+func c16Name(rng *rand.Rand, listed []string) string {
+	if rng.Intn(10) < 7 {
+		return listed[rng.Intn(len(listed))]
+	}
+	var b strings.Builder
+	for k := 1 + rng.Intn(4); k > 0; k-- {
+		b.WriteString(c16Pieces[rng.Intn(len(c16Pieces))])
+	}
+	return b.String()
+}
+
 // c16Alias names how two different tuples may be confused (computed from the names only).
 func c16Alias(x, y c16Tuple) string {
 	if x == y {
@@ -255,10 +270,10 @@ func c16PickNames(rng *rand.Rand) (groups, topics []string) {
 		gs[a[0][0]], ts[a[0][1]], gs[a[1][0]], ts[a[1][1]] = true, true, true, true
 	}
 	for len(gs) < 3 {
-		gs[c16Groups[rng.Intn(len(c16Groups))]] = true
+		gs[c16Name(rng, c16Groups)] = true
 	}
 	for len(ts) < 3 {
-		ts[c16Topics[rng.Intn(len(c16Topics))]] = true
+		ts[c16Name(rng, c16Topics)] = true
 	}
 	for g := range gs {
 		groups = append(groups, g)
@@ -281,7 +296,7 @@ func TestVerifC16Coord(t *testing.T) {
 		"a partition answered with an error code decides nothing about its offset; a store error (etcd timeout under load) discards the attempt and the case is re-run",
 		"duplicate tuples inside one request are not generated (their order of application is not specified)")
 	etcd := c16StartEtcd(t)
-	n := r.N(40, 3000)
+	n := r.N(50, 1500)
 	for ci := 0; ci < n; ci++ {
 		for _, kind := range []string{"memory", "etcd"} {
 			done := false
@@ -534,7 +549,7 @@ func TestVerifC16Conc(t *testing.T) {
 		},
 		DescribeOperation: func(in, out any) string { return fmt.Sprintf("%+v -> %+v", in, out) },
 	}
-	n := r.N(40, 2500)
+	n := r.N(50, 1200)
 	var clock atomic.Int64
 	for ci := 0; ci < n; ci++ {
 		for _, kind := range []string{"memory", "etcd"} {
